@@ -67,10 +67,11 @@ def in_domain(script):
     only after a clear or once the heap has been drained)"""
     held = set()
     live = 0
+    held2, live2 = set(), 0     # the swap partner
     for op in script:
         w = op.split()
         if w[0] == "push":
-            if len(w) != 3 or int(w[2]) in held or int(w[2]) < 1:
+            if len(w) != 3 or int(w[2]) in held or int(w[2]) in held2 or int(w[2]) < 1:
                 return False
             held.add(int(w[2]))
             live += 1
@@ -82,6 +83,11 @@ def in_domain(script):
         elif w[0] == "clear":
             held.clear()
             live = 0
+        elif w[0] in ("swap", "alt"):
+            held, held2, live, live2 = held2, held, live2, live
+        elif w[0] == "bulk":
+            if live:
+                return False
     return True
 
 
@@ -94,10 +100,11 @@ def oracle(prop, script, c_lines):
     nothing else, touches none of them afterwards and leaves an empty usable
     heap; cstl_fls returns the index of the highest set bit, -1 for 0."""
     held = {}
+    aux = {}        # what the swap partner holds
     for i, op in enumerate(script):
         w = op.split()
         o = w[0]
-        if o == "push" and int(w[2]) in held:
+        if o == "push" and (int(w[2]) in held or int(w[2]) in aux):
             return None         # pushing an element twice: outside the documented domain
         if i >= len(c_lines):
             return "op %d '%s': no output from the implementation" % (i, op)
@@ -147,6 +154,8 @@ def oracle(prop, script, c_lines):
                 return "op %d '%s': cstl_fls returned %s, highest set bit is %d" % (i, op, res, x.bit_length() - 1)
         elif o == "dump":
             pass
+        elif o in ("swap", "alt"):
+            held, aux = aux, held
         elif o == "bulk":
             # the harness itself checks every step of the large history against a
             # counting ledger (size, get/pop return a held element of maximal priority)
@@ -188,6 +197,13 @@ def corpus():
         ["push 5 1", "push 3 2", "push 4 3", "push 1 4", "pop", "pop"],
         # ascending pushes (every push sifts to the root), then drain
         ["push %d %d" % (k, k) for k in range(1, 17)] + ["pop"] * 17,
+        # swap with the (initially empty) partner heap, which is anchored at the elements' other hook
+        ["swap", "push 2 1", "push 5 2", "push 1 3", "swap", "get", "push 4 4", "push 4 5", "swap", "pop", "push 9 6",
+         "get", "swap", "pop", "pop", "swap", "pop", "pop", "pop", "size", "swap", "size", "clear", "swap", "push 1 1", "pop"],
+        # ... and both OBJECTS used after the exchange (`alt` switches the object addressed, no library call)
+        ["push 2 1", "push 5 2", "push 1 3", "swap", "alt", "get", "pop", "push 7 4", "alt", "push 3 5", "swap", "pop",
+         "alt", "pop", "pop", "pop", "alt", "pop", "size", "clear"],
+        ["push 1 1", "swap", "alt", "pop", "pop", "alt", "pop"],
         # clear then reuse
         ["push 3 1", "push 1 2", "push 2 3", "push 2 4", "push 0 5", "clear", "size", "get",
          "push 1 1", "push 2 2", "pop", "pop", "pop", "clear"],
@@ -287,9 +303,15 @@ def random_script(rng, length, max_live, nprio, pool=4000):
     target = max_live
     growing = True
     since_dump = 0
+    live2 = 0
     for _ in range(length):
         r = rng.random()
-        if live == 0 and next_id > 1 and next_id + max_live >= pool:
+        if r > 0.996 and next_id + 2 * max_live < pool:
+            # exchange with the partner heap (ids are not reused while either heap holds elements)
+            ops.append(rng.choice(("swap", "alt", "swap")))
+            live, live2 = live2, live
+            continue
+        if live == 0 and live2 == 0 and next_id > 1 and next_id + max_live >= pool:
             next_id = 1                       # heap is empty: every id is free again
         can_push = live < max_live and next_id <= pool
         p_push = 0.72 if growing else 0.28
@@ -300,7 +322,7 @@ def random_script(rng, length, max_live, nprio, pool=4000):
         elif r < 0.0515 and live > 0 and (not growing or 4 * live < max_live):
             op = "clear"
             live = 0
-            next_id = 1 if next_id + max_live >= pool else next_id
+            next_id = 1 if (next_id + max_live >= pool and live2 == 0) else next_id
             ops.append(op)
             ops.append("size")
             continue
